@@ -162,6 +162,12 @@ def big_documents(thorough=False):
 
     def scen(i, steps=1, ind="  "):
         return ind + "Scenario: s%d\n" % i + "".join(ind + "  Given step %d of %d\n" % (j, i) for j in range(steps))
+    for n in [7, 8, 9, 10, 11, 97, 98, 99, 100, 101] + ([997, 998, 999, 1000] if thorough else []):
+        # a ragged table whose deviating rows (two different wrong widths, in both orders) sit where row ids / line numbers gain a digit
+        for w1, w2 in (("| a |", "| a | b | c |"), ("| a | b | c |", "| a |"), ("|", "| a | b | c | d |")):
+            good = "".join("   | r%d | x |\n" % i for i in range(n))
+            out.append(("ragged-two-widths-%d-%d-%d" % (n, len(w1), len(w2)), "Feature: f\n Scenario: s\n  Given t\n" + good + "   " + w1 + "\n" + "   " + w2 + "\n" + "   | ok | ok |\n   " + w2 + "\n"))
+            out.append(("ragged-examples-two-widths-%d-%d-%d" % (n, len(w1), len(w2)), "Feature: f\n Scenario Outline: s\n  Given <r0>\n  Examples:\n" + good + "   " + w1 + "\n   | ok | ok |\n" + "   " + w2 + "\n"))
     for n in N:
         out.append(("scenarios-%d" % n, "Feature: f\n" + "".join(scen(i) for i in range(n))))
         out.append(("steps-%d" % n, "Feature: f\n" + scen(0, n)))
